@@ -101,25 +101,35 @@ ObsInvalid(st, obs) == {j \in 1..Len(obs) : Known(st, obs[j].k) /\ ~ValOK(Resolv
 
 OpSig(ev) == IF ev.op = "configure" /\ \E j \in 1..Len(ev.D) : ev.D[j].r.t = "none" THEN "configure-U" ELSE ev.op
 
-RECURSIVE JudgeFrom(_, _, _)
-JudgeFrom(c, st, n) ==
+\* circumstance that qualifies a signature: keys of yielding boolean subproject options that were `-U`nset while
+\* they held their own value and the parent's value was false
+UnsetFalseParent(st, ev) ==
+    IF ev.op # "configure" THEN {}
+    ELSE {ev.D[j].k : j \in {j \in 1..Len(ev.D) :
+            LET k == ev.D[j].k IN
+            /\ ev.D[j].r.t = "none" /\ k \in DOMAIN st.o /\ st.o[k].p /\ ~st.o[k].y
+            /\ st.o[k].d.kind = "boolean" /\ st.o[AsRoot(k)].v = VBool(FALSE)}}
+
+RECURSIVE JudgeFrom(_, _, _, _)
+JudgeFrom(c, st, T, n) ==
     IF n > Len(c.ev) THEN OkVerdict(c)
     ELSE LET ev == c.ev[n]
              r == Step(st, ev)
+             T1 == T \cup UnsetFalseParent(st, ev)
          IN IF r.ok /\ ev.raised THEN Verdict(c, "ValidCallRejected", OpSig(ev), n, <<>>, <<>>)
             ELSE IF ~r.ok /\ ~ev.raised THEN Verdict(c, "InvalidCallAccepted", OpSig(ev), n, <<>>, <<>>)
             ELSE IF ObsDiff(c, st, r.st, ev) # {}
             THEN LET j == Min(ObsDiff(c, st, r.st, ev))
                      k == c.watch[j] IN
                  Verdict(c, IF r.ok THEN "ValueAfterCall" ELSE "RejectedCallChangedValue",
-                         OpSig(ev) \o ":" \o k.s \o ":" \o k.n, n,
+                         (IF k \in T1 THEN "unset-bool-false-parent" ELSE OpSig(ev)) \o ":" \o k.s \o ":" \o k.n, n,
                          IF Known(r.st, k) THEN <<Get(r.st, k)>> ELSE <<>>,
                          IF ObsOf(ev, k) # {} THEN <<ev.obs[Min(ObsOf(ev, k))].v>> ELSE <<"unchanged">>)
             ELSE IF ObsInvalid(r.st, ev.obs) # {}
             THEN Verdict(c, "StoredValueInvalid", OpSig(ev), n, <<>>, <<>>)
-            ELSE JudgeFrom(c, r.st, n + 1)
+            ELSE JudgeFrom(c, r.st, T1, n + 1)
 
-JudgeApi(c) == JudgeFrom(c, EmptyStore(c.cross, Range(c.latent)), 1)
+JudgeApi(c) == JudgeFrom(c, EmptyStore(c.cross, Range(c.latent)), {}, 1)
 
 Judge(c) == IF c.fam = "api" THEN (LET v == JudgeApi(c) IN IF v.clause = "ok" THEN <<>> ELSE <<v>>) ELSE JudgeScenario(c)
 
